@@ -948,6 +948,9 @@ unsigned int CppCheck::checkInternal(const FileWithDetails& file, const std::str
     const int maxConfigs = mSettings.getMaxConfigs();
 
     mLogger->resetExitCode();
+    // the duplicate list is per check() call: do not inherit the findings of a previous file
+    // that left through one of the early returns below (cached results, --check-config, ...)
+    mLogger->clear();
 
     if (Settings::terminated())
         return mLogger->exitcode();
